@@ -165,9 +165,12 @@ example : Inv exEnv exNode ∧ (addBlock exEnv exNode b1).2 = none :=
 
 /-- the mempool-soundness hypothesis `hpool` of `accept_only_valid` is needed: a transaction that is
 pooled (same hash, same witness) is not verified again, so if it lost its validity while pooled and the
-mempool kept it, the block carrying it is accepted (known findings stale-pooled-tx-accepted:*: the
-real mempool keeps transactions of a freshly blocked sender and transactions that underpay after an
-attribute-fee or a small FeePerByte raise). -/
+mempool kept it, the block carrying it is accepted. The real mempool re-checks, after every block,
+expiry, on-chain conflicts, policy (blocked signers), the size and attribute fees and the balance
+(IsTxStillRelevant / RemoveStale; blocked signers and attribute fees since 397b691); what it does not
+re-check is the witness verification cost of standard witnesses: after a small FeePerByte raise a
+transaction whose fee no longer covers verification stays pooled (known finding
+stale-pooled-tx-accepted:feeperbyte-raised-a-little). -/
 def tStale : Tx := { id := 60, wit := 61, sender := 1, fee := 5, netFee := 2, conflicts := [] }
 def exStalePool : Node (Nat × Nat) := { exNode with pool := [tStale] }
 def bStale : Block := { hdr := { h1 with hash := 13, merkleRoot := 60, wit := 20 }, txs := [tStale] }
